@@ -2770,11 +2770,12 @@ class Cond(Generic[X, R], GFI[X, R]):
         (check, *rest_args) = args
         new_tr, w, discard = self.callee.update(tr.trs[0], x, *rest_args, **kwargs)
         new_tr_, w_, discard_ = self.callee_.update(tr.trs[1], x, *rest_args, **kwargs)
-        # Merge discarded values
-        merged_discard, _ = self.callee.merge(discard, discard_)
+        # The discard holds the values that were visible in the old trace,
+        # i.e. those of the branch selected by the *old* condition.
+        merged_discard, _ = self.callee.merge(discard, discard_, tr.check)
         return (
             CondTr(self, check, [new_tr, new_tr_]),
-            jnp.where(check, w, w_),
+            jnp.where(check, w, w_) + self._branch_switch_correction(tr, check),
             merged_discard,
         )
 
@@ -2795,9 +2796,18 @@ class Cond(Generic[X, R], GFI[X, R]):
         elif discard_ is None:
             merged_discard = discard
         else:
-            merged_discard, _ = self.callee.merge(discard, discard_)
+            merged_discard, _ = self.callee.merge(discard, discard_, tr.check)
         return (
             CondTr(self, check, [new_tr, new_tr_]),
-            jnp.where(check, w, w_),
+            jnp.where(check, w, w_) + self._branch_switch_correction(tr, check),
             merged_discard,
         )
+
+    @staticmethod
+    def _branch_switch_correction(tr: CondTr[X, R], check) -> Weight:
+        """Per-branch weights are relative to that branch's own old score; when the
+        condition changes, the old score that counts is the one that was visible.
+        Zero whenever the branch taken does not change."""
+        old_visible = tr.get_score()
+        old_of_new_branch = jnp.where(check, *map(get_score, tr.trs))
+        return old_visible - old_of_new_branch
